@@ -55,9 +55,9 @@ func init() {
 				}},
 				{Name: "extreme-product", N: 1 + 6 + 36 + 216 + c.Pick(1000, 100000), Run: c01Product},
 				{Name: "byte-lanes", N: 8 * 3, Run: c01Lanes},
-				{Name: "zoo", N: c.Pick(60000, 6000000), Run: c01Zoo},
-				{Name: "zoo-long", N: c.Pick(1000, 200000), Run: c01ZooLong},
-				{Name: "dense-long", N: c.Pick(8, 400), Run: c01DenseLong},
+				{Name: "zoo", Env: 8, N: c.Pick(60000, 6000000), Run: c01Zoo},
+				{Name: "zoo-long", Env: 4, N: c.Pick(1000, 200000), Run: c01ZooLong},
+				{Name: "dense-long", Env: 2, N: c.Pick(8, 400), Run: c01DenseLong},
 			}
 		},
 	})
